@@ -327,11 +327,13 @@ class HybridLoad:
             load_diff = self.monthly_peak_cl[i] - max(current_two_day_cl_load)
             # monthly peak cooling load (or heat rejection) in kW
             current_month_peak_cl = self.monthly_peak_cl[i] if abs(load_diff) < tol else max(current_two_day_cl_load)
+            # never scale by less than the largest load in the window, whatever its size relative to the tolerance
+            current_month_peak_cl = max(current_month_peak_cl, max(current_two_day_cl_load))
 
             # monthly average cooling load (or heat rejection) in kW
             current_month_avg_cl = self.monthly_avg_cl[i]
 
-            if current_month_peak_cl != 0.0:
+            if current_month_peak_cl != 0.0 and self.monthly_peak_cl[i] != 0.0:
                 peak_duration, _, _ = self.perform_current_month_simulation(
                     current_two_day_cl_load,
                     current_month_peak_cl,
@@ -354,11 +356,13 @@ class HybridLoad:
             load_diff = self.monthly_peak_hl[i] - max(current_two_day_hl_load)
             # monthly peak cooling load (or heat rejection) in kW
             current_month_peak_hl = self.monthly_peak_hl[i] if abs(load_diff) < tol else max(current_two_day_hl_load)
+            # never scale by less than the largest load in the window, whatever its size relative to the tolerance
+            current_month_peak_hl = max(current_month_peak_hl, max(current_two_day_hl_load))
 
             # monthly average heating load (or heat extraction) in kW
             current_month_avg_hl = self.monthly_avg_hl[i]
 
-            if current_month_peak_hl != 0.0:
+            if current_month_peak_hl != 0.0 and self.monthly_peak_hl[i] != 0.0:
                 peak_duration, _, _ = self.perform_current_month_simulation(
                     current_two_day_hl_load,
                     current_month_peak_hl,
